@@ -411,7 +411,7 @@ pub fn parts<'a>(cli: &'a Cli) -> Option<(Vec<Part<'a>>, &'static str, Vec<&'sta
             Some((parts, "part mem: the C18 cases over the in-memory connection: a client that never gets its 100 never sends the body, which the engine reports as an exact stall", a))
         }
         "C13" => {
-            let (n_multi, corpus) = if cli.thorough { (200usize, 5_000u64) } else { (20usize, 400u64) };
+            let (n_multi, corpus) = if cli.thorough { (200usize, 5_000u64) } else { (20usize, 160u64) };
             let max_stream = if cli.thorough { 60_000 } else { 4_000 };
             parts.push(make_part(
                 "mem-splits",
@@ -428,7 +428,7 @@ pub fn parts<'a>(cli: &'a Cli) -> Option<(Vec<Part<'a>>, &'static str, Vec<&'sta
             ))
         }
         "C15" => {
-            let corpus = cli.cases(300, 8_000);
+            let corpus = cli.cases(100, 8_000);
             let max_stream = if cli.thorough { 20_000 } else { 3_000 };
             parts.push(make_part("mem-request-cuts", "CONV/mem", corpus, move || (corpus_strategy(max_stream, false), proptest::bool::weighted(0.6)).prop_map(|(case, every)| CutCase { case, every }), |_| (), |_, c| c15_request_side(c)));
             parts.push(make_part("mem-response-cuts", "CONV/mem", corpus / 2, move || (corpus_strategy(max_stream, false), proptest::bool::weighted(0.6)).prop_map(|(case, every)| CutCase { case, every }), |_| (), |_, c| c15_response_side(c)));
